@@ -111,7 +111,7 @@ pub fn check(job: &Job, faults: &[Fault], rec: &Record, content_check: bool) -> 
     match &rec.outcome {
         Outcome::Ok => {
             if errs > 0 {
-                v.push(Violation::new("I2-success-with-error-diagnostic", format!("exit Ok but {} error diagnostic(s): {} | {}", errs, first_error(&rec.stderr), ctx)));
+                v.push(Violation::new(&format!("I2-success-with-error-diagnostic:{}", msg_class(&first_error(&rec.stderr))), format!("exit Ok but {} error diagnostic(s): {} | {}", errs, first_error(&rec.stderr), ctx)));
             }
             if fired_read {
                 v.push(Violation::new("I4-read-fault-not-fatal", format!("a permanent read fault fired and the run still succeeded | {}", ctx)));
@@ -142,7 +142,10 @@ pub fn check(job: &Job, faults: &[Fault], rec: &Record, content_check: bool) -> 
                                 }
                             }
                         }
-                        if content_check && faults.is_empty() {
+                        // when an explicit -o names an input file, later listing
+                        // formats legitimately see the overwritten source
+                        let overwrote_input = rec.writes.iter().any(|w| ins.contains(&w.resolved));
+                        if content_check && faults.is_empty() && !overwrote_input {
                             if let Some(bytes) = expected_group_bytes(job, &g.format, g.print) {
                                 if bytes != w.data {
                                     v.push(Violation::new("I2-output-content-mismatch", format!("file `{}` does not hold the result in the requested format ({} vs {} bytes) | {}", w.spelling, w.data.len(), bytes.len(), ctx)));
@@ -178,6 +181,24 @@ pub fn check(job: &Job, faults: &[Fault], rec: &Record, content_check: bool) -> 
         }
     }
     v
+}
+
+/// Normalised wording of a diagnostic: text between backticks and digits
+/// removed, so that one defect is one class.
+pub fn msg_class(line: &str) -> String {
+    let mut out = String::new();
+    let mut in_tick = false;
+    for c in line.trim_start_matches("error: ").chars() {
+        if c == '`' {
+            in_tick = !in_tick;
+            continue;
+        }
+        if in_tick || c.is_ascii_digit() {
+            continue;
+        }
+        out.push(if c == ' ' { '-' } else { c });
+    }
+    out.trim_matches('-').chars().take(40).collect()
 }
 
 fn first_error(stderr: &[u8]) -> String {
